@@ -85,6 +85,11 @@ func (d *DateTime) UnmarshalJSON(bytes []byte) error {
 }
 
 func (d DateTime) MarshalUT0311L0x() ([]byte, error) {
+	// ... the zero value DateTime is encoded as 0001-01-01 00:00:00, whatever location it is held in
+	if time.Time(d).IsZero() {
+		d = DateTime{}
+	}
+
 	encoded, err := bcd.Encode(time.Time(d).Format("20060102150405"))
 
 	if err != nil {
